@@ -606,7 +606,7 @@ func pre(m map[string]*attView, k string) (*attView, bool) { a, ok := m[k]; retu
 
 func cases(tier string, seed int64) []fw.Case {
 	var cs []fw.Case
-	n, blocks := 24, 260
+	n, blocks := 96, 300
 	if tier == "thorough" {
 		n, blocks = 240, 520
 	}
